@@ -205,9 +205,12 @@ func (s *Sim) genApp() Op {
 		case 2:
 			a.Queue = "root." + pick(r, []string{"a", "b", "c"}) + "." + pick(r, []string{"dyn1", "dyn2", "a"})
 		case 3:
-			a.Queue = pick(r, []string{"dyn1", "a", "root.zz", "a.b"})
+			a.Queue = pick(r, []string{"dyn1", "a", "root.zz", "a.b", "root.@recovery@", "@recovery@", "root.@Recovery@"})
 		}
 		a.Tags["namespace"] = pick(r, []string{"ns1", "ns2", "a", "dev"})
+		if r.Bool(0.05) {
+			a.Tags["namespace"] = "@recovery@"
+		}
 		if r.Bool(0.3) {
 			a.Tags["namespace.resourcequota"] = genRes(r, 2, 10, 0.7).tagJSON()
 		}
